@@ -134,7 +134,26 @@ func JudgeC01(c *Case, ex *Exec) []Finding {
 			for i := 1; i < len(ex.Info); i++ {
 				a, b := ex.Info[i-1].Cluster, ex.Info[i].Cluster
 				if (!backward && b < a) || (backward && b > a) {
-					add("cluster-monotone", "buffer level, cluster level %d, direction %v: clusters %d then %d at glyphs %d,%d", c.ClusterLevel, ex.BufDir, a, b, i-1, i)
+					key := "cluster-monotone"
+					note := ""
+					if c.ClusterLevel == uint8(harfbuzz.MonotoneCharacters) {
+						// open finding: at this level some complex-shaper reorderings leave clusters
+						// unmerged, in the port exactly as in upstream HarfBuzz 6.0.0. Predicted model:
+						// the reference C library returns the same cluster sequence for the same input.
+						if rc, ok := refClusters(c); ok && len(rc) == len(ex.Info) {
+							same := true
+							for k := range rc {
+								if rc[k] != ex.Info[k].Cluster {
+									same = false
+								}
+							}
+							if same {
+								key = "cluster-monotone-level1-as-upstream"
+								note = " (the C HarfBuzz 6.0.0 reference returns the same clusters)"
+							}
+						}
+					}
+					add(key, "buffer level, cluster level %d, direction %v: clusters %d then %d at glyphs %d,%d%s", c.ClusterLevel, ex.BufDir, a, b, i-1, i, note)
 					break
 				}
 			}
